@@ -1097,6 +1097,147 @@ func ruleStopSweep(c *Ctx, rid string) {
 	}
 	c.count("sweep-loops", nsweep)
 	c.floor("sweep-loops", 1)
+	// Round 8 (R8C15-m1): every function between Stop and the sweep reaches the sweep on each of its
+	// success paths, unless what sends it elsewhere is a test of the registry itself (an empty
+	// snapshot). A counter, a gauge, a flag or the configuration may say "nothing to close" while
+	// connections are registered.
+	{
+		sweepFns := map[*ssa.Function][]*Loop{}
+		for _, fn := range c.P.RepoFuncs(pkgRedis) {
+			if !c.P.reachesFromStop(fn) {
+				continue
+			}
+			for _, l := range naturalLoops(fn) {
+				for b := range l.Blocks {
+					for _, ins := range b.Instrs {
+						if cc := callCommon(ins); cc != nil {
+							if calleeName(cc) == nConnClose {
+								sweepFns[fn] = append(sweepFns[fn], l)
+							} else if cal := staticCallee(cc); cal != nil && inFramework(cal) && cal != fn && c.P.reachesCallNamed(cal, nConnClose) && len(naturalLoops(cal)) == 0 {
+								sweepFns[fn] = append(sweepFns[fn], l)
+							}
+						}
+					}
+				}
+			}
+		}
+		reachesSweep := func(f *ssa.Function) bool {
+			seen := map[*ssa.Function]bool{}
+			st := []*ssa.Function{f}
+			for len(st) > 0 {
+				x := st[len(st)-1]
+				st = st[:len(st)-1]
+				if x == nil || seen[x] || x.Blocks == nil {
+					continue
+				}
+				seen[x] = true
+				if _, ok := sweepFns[x]; ok {
+					return true
+				}
+				for _, cal := range calleesIn(x) {
+					if inFramework(cal) {
+						st = append(st, cal)
+					}
+				}
+			}
+			return false
+		}
+		sm := &syncModel{p: c.P}
+		nchain := 0
+		for _, fn := range c.P.RepoFuncs(pkgRedis) {
+			if !inFramework(fn) || fn == stop || !c.P.reachesFromStop(fn) || !reachesSweep(fn) {
+				continue
+			}
+			nchain++
+			loops := sweepFns[fn]
+			inSweepHeader := func(b *ssa.BasicBlock) bool {
+				for _, l := range loops {
+					if l.Header == b {
+						return true
+					}
+				}
+				return false
+			}
+			var sweepBlocks []*ssa.BasicBlock
+			for _, l := range loops {
+				sweepBlocks = append(sweepBlocks, l.Header)
+			}
+			allInstrs(fn, func(ins ssa.Instruction) {
+				if call, ok := ins.(*ssa.Call); ok {
+					if cal := staticCallee(call.Common()); cal != nil && inFramework(cal) && cal != fn && reachesSweep(cal) {
+						sweepBlocks = append(sweepBlocks, call.Block())
+					}
+				}
+			})
+			a := &Auto[int8]{Fn: fn, Init: 0,
+				Step: func(s int8, ins ssa.Instruction, fail func(string)) []int8 {
+					if inSweepHeader(ins.Block()) {
+						s = 1
+					}
+					switch x := ins.(type) {
+					case *ssa.Call:
+						if cal := staticCallee(x.Common()); cal != nil && inFramework(cal) && cal != fn && reachesSweep(cal) {
+							s = 1
+						}
+					case *ssa.Return:
+						if s == 0 && (len(x.Results) == 0 || isNilConst(retOperand(x, len(x.Results)-1))) {
+							// which tests send this path past the sweep?
+							atSweep := map[string]bool{}
+							for _, sb := range sweepBlocks {
+								for _, at := range factsAt(sb) {
+									atSweep[fmt.Sprintf("%s|%v|%v|%v", at.Kind, at.X, at.Y, at.Pos)] = true
+								}
+							}
+							for _, at := range factsAt(x.Block()) {
+								if atSweep[fmt.Sprintf("%s|%v|%v|%v", at.Kind, at.X, at.Y, at.Pos)] {
+									continue
+								}
+								aboutRegistry := false
+								for _, v := range []ssa.Value{at.X, at.Y} {
+									if v == nil {
+										continue
+									}
+									v = strip(v)
+									if call, isC := v.(*ssa.Call); isC {
+										if bi, isB := call.Common().Value.(*ssa.Builtin); isB && bi.Name() == "len" && len(call.Common().Args) == 1 {
+											v = strip(call.Common().Args[0])
+										}
+									}
+									if sm.fromRegistry(v, 0, map[ssa.Value]bool{}) {
+										aboutRegistry = true
+									}
+									if owner, f, _, ok := fieldOf(v); ok && owner == "redis.ConnManager" && f == "m" {
+										aboutRegistry = true
+									}
+									if u, isU := v.(*ssa.UnOp); isU {
+										if owner, f, _, ok := fieldOf(u.X); ok && owner == "redis.ConnManager" && f == "m" {
+											aboutRegistry = true
+										}
+									}
+								}
+								if isErrorType(at.X.Type()) {
+									continue
+								}
+								if !aboutRegistry {
+									fail("a success return that skips the sweep of the registered connections, decided by something other than the registry itself (a counter, flag or configuration can say \"nothing to close\" while connections are registered): Stop returns nil with clients still served")
+									break
+								}
+							}
+						}
+					}
+					return []int8{s}
+				}}
+			res := a.Run()
+			if len(res.Errs) == 0 {
+				c.ok(rid, fnName(fn)+"/reaches-sweep", c.P.pos(fn.Pos()), "every success path reaches the sweep, or an empty registry was observed")
+			}
+			for i, e := range res.Errs {
+				c.bad(rid, fmt.Sprintf("%s/reaches-sweep#%d", fnName(fn), i), c.P.instrPos(e.Ins), e.Msg, e.witness(c.P)...)
+			}
+		}
+		c.count("stop-to-sweep-chain-functions", nchain)
+		c.floor("stop-to-sweep-chain-functions", 1)
+	}
 	// who may write the registry
 	nw := 0
 	for _, fn := range c.P.RepoFuncs(pkgRedis) {
